@@ -80,13 +80,100 @@ def matching_pattern(sch, mols):
     return None
 
 
+# same-named correction rows whose patterns match the SAME sets of atoms (a link written from either end, 'exactly three' next
+# to 'three or more', a pattern next to its restriction): the scheme file declares one count PER ROW, summed under the name
+TWIN_ROWS = [('Twin:XH', ['fragment a{heavy atom labeled x H labeled h single bond to x}',
+                          'fragment b{H labeled h heavy atom labeled x single bond to h}']),
+             ('Twin:CO', ['fragment a{C labeled c1 O labeled o1 single bond to c1}',
+                          'fragment a{O labeled o1 C labeled c1 single bond to o1}']),
+             ('Twin:CC', ['fragment a{C labeled c1 C labeled c2 any bond to c1}',
+                          'fragment a{C labeled c2 C labeled c1 any bond to c2}',
+                          'fragment a{C labeled c1 C labeled c2 single bond to c1}']),
+             ('Twin:branch', ['fragment a{C labeled c1 {connected to =3 C}}', 'fragment a{C labeled c1 {connected to >=3 C}}']),
+             ('Twin:CM', ['fragment a{C labeled c1 M labeled m any bond to c1}', 'fragment a{M labeled m C labeled c1 any bond to m}']),
+             ('Twin:ring3', ['fragment a{$ labeled a $ labeled b any bond to a $ labeled c any bond to b ringbond c any bond to a}',
+                             'fragment a{$ labeled a {in ring of size 3} $ labeled b any bond to a $ labeled c any bond to b ringbond a any bond to c}'])]
+
+
+def twin_rows(ctx, lib, mols):
+    """[[name, RING text], ...] to append to the scheme's correction descriptors: (a) rows named like a shipped correction
+    descriptor that matches one of the sample molecules, with the shipped pattern written again - verbatim, with other
+    labels, or from another end (`lib_ringgen_c08.reroot`); (b) one of the TWIN_ROWS families under a fresh name."""
+    from rdkit import Chem
+    from . import lib_ast, lib_ringgen_c08 as R
+    import pgradd.GroupAdd.Scheme as M
+    rng = ctx.rng
+    rows = []
+    live = []
+    prepared = [m for m in (S.prepare(smi) for smi in mols[:8]) if m is not None]
+    for d in lib.scheme.other_descriptors:
+        try:
+            if any(d['connectivity'].GetQueryMatches(Chem.Mol(m)) for m in prepared):
+                live.append(d)
+        except Exception:
+            continue
+    for d in rng.sample(live, min(len(live), 2)):
+        text = S.text_of(d['connectivity'])
+        frag = S.frag_of_ast(lib_ast.parse_to_json(text))
+        how = rng.choice(['verbatim', 'relabel', 'reroot', 'reroot'])
+        if how == 'relabel':
+            text = R.render(R.relabel(frag, rng))
+        elif how == 'reroot':
+            labs = R.labels_of(frag)
+            g = R.reroot(frag, rng.choice(labs[1:])) if len(labs) > 1 else None
+            if g is not None:
+                text = R.render(g)
+        rows.append([str(d['name']), text])
+    fams = []
+    for name, texts in TWIN_ROWS:
+        if name not in _TWINQ:
+            _TWINQ[name] = M.Read(texts[-1])
+        try:
+            if any(_TWINQ[name].GetQueryMatches(Chem.Mol(m)) for m in prepared):
+                fams.append((name, texts))
+        except Exception:
+            continue
+    name, texts = rng.choice(fams or TWIN_ROWS[:1])
+    rows += [[name, t] for t in texts]
+    return rows
+
+
+_TWINQ = {}
+
+
+def twin_fails(lib, smi):
+    impl = S.impl_descriptors(lib, smi)
+    mol = S.prepare(smi)
+    if mol is None:
+        return False
+    spec = S.declared(S.scheme_input(lib.scheme, mol))
+    return ('err' in impl) != ('err' in spec) or ('ok' in impl and not S.same_counts(impl['ok'], spec['ok']))
+
+
+def with_rows(lib, rows):
+    """the scheme of `lib` with the correction rows [[name, RING text], ...] appended (read through the Scheme module's own
+    `Read`, hence with their text on record for the model and the embedding oracle)"""
+    import pgradd.GroupAdd.Scheme as M
+    from pgradd.GroupAdd.Library import GroupLibrary
+    sch = lib.scheme
+    extra = [{'name': n, 'connectivity': M.Read(t)} for n, t in rows]
+    s2 = M.GroupAdditivityScheme(patterns=list(sch.patterns), pretreatment_rules=[], remaps=dict(sch.remaps),
+                                 other_descriptors=list(sch.other_descriptors) + extra, smiles_based_descriptors=[],
+                                 smarts_based_descriptors=[], include=[])
+    return GroupLibrary(s2, contents={}, uq_contents={})
+
+
 def synthetic(ctx, lib, mols, mode=None):
     """a scheme derived from a shipped one: a pattern dropped / duplicated, or extra (multi-target, fractional, chain-free)
-    remap rules on names that actually occur in the decompositions of the sample molecules"""
+    remap rules on names that actually occur in the decompositions of the sample molecules; mode 'twin': same-named
+    correction rows matching the same atom sets (returns the rows as a third value through `synthetic.rows`)"""
     from pgradd.GroupAdd.Scheme import GroupAdditivityScheme
     from pgradd.GroupAdd.Library import GroupLibrary
     rng = ctx.rng
     sch = lib.scheme
+    if mode == 'twin':
+        synthetic.rows = twin_rows(ctx, lib, mols)
+        return with_rows(lib, synthetic.rows), mode
     pats = list(sch.patterns)
     mode = mode or rng.choice(['drop', 'dup', 'remap', 'remap', 'remap'])
     if mode == 'drop' and len(pats) > 3:
@@ -147,7 +234,7 @@ def to_frac(d):
     return {k: Fraction(v).limit_denominator(10 ** 9) if isinstance(v, float) else Fraction(v) for k, v in d.items()}
 
 
-def check_one(ctx, tag, lib, smi, batch, full=None):
+def check_one(ctx, tag, lib, smi, batch, full=None, extra=None):
     impl = S.impl_descriptors(lib, smi)
     atoms = S.impl_atoms(lib) if 'ok' in impl else None
     hook = S.hook_graph(lib) if 'ok' in impl else None
@@ -162,7 +249,7 @@ def check_one(ctx, tag, lib, smi, batch, full=None):
     ctx.case((tag, smi) if nontriv else None, {'scheme': tag, 'smiles': smi, 'result': impl if 'err' in impl else dict(list(impl['ok'].items())[:6])})
     ctx.count('impl_' + ('ok' if 'ok' in impl else impl['err']))
     ctx.count('heavy_%02d' % min(heavy, 25))
-    where = {'scheme': tag, 'smiles': smi}
+    where = dict({'scheme': tag, 'smiles': smi}, **(extra or {}))
     if impl.get('err', '').startswith('internal'):
         ctx.violation('decomposition escapes with an unrelated exception', where, 'descriptors or PatternMatchError', impl)
     elif ('err' in impl) != ('err' in spec):
@@ -255,6 +342,65 @@ def object_forms(ctx, libs_, smi, calls=None):
                 return
 
 
+# correction rows of the two RDKit-pattern kinds (`smiles_based_descriptors`, matched on the molecule as parsed, and
+# `smarts_based_descriptors`, matched on the explicit-H Benson-aromatised molecule): [kind, name, SMARTS, useChirality]
+RDKIT_ROWS = [['smarts', 'Twin:XH', '[!#1][#1]', False], ['smarts', 'Twin:XH', '[#1][!#1]', False],
+              ['smarts', 'Twin:CC', '[#6]~[#6]', False], ['smarts', 'Twin:CC', '[#6]-[#6]', True],
+              ['smiles', 'Twin:CC', '[#6]~[#6]', False], ['smiles', 'Twin:heavy', '[!#1]', False], ['smiles', 'Twin:heavy', '[!#1;!#6]', False],
+              ['smarts', 'Twin:heavy', '[#6,#8]', False], ['smiles', 'Twin:CO', '[#6][#8]', True], ['smiles', 'Twin:CO', '[#8][#6]', False],
+              ['smarts', 'Twin:CM', '[#6]~[Pt,Ru]', False], ['smiles', 'Twin:CM', '[Pt,Ru]~[#6]', False]]
+
+
+def rdkit_rows(ctx, name, lib, mols, rows=None):
+    """The two RDKit-pattern kinds of correction rows (no shipped scheme has any; not modelled in Lean): a scheme with same-named
+    rows of all three kinds - RING rows, smiles-based, smarts-based - must count every ROW's distinct sets of matched atoms and
+    add them under the name.  Oracle: `lib_scheme.declared` with one more descriptor entry per RDKit row, its match list
+    asked of RDKit directly on the molecule the scheme file says the row is matched on."""
+    from rdkit import Chem
+    import pgradd.GroupAdd.Scheme as M
+    from pgradd.GroupAdd.Library import GroupLibrary
+    rng = ctx.rng
+    if rows is None:
+        rows = rng.sample(RDKIT_ROWS, rng.randint(3, 6))
+        ring = [[n, t[0]] for n, t in TWIN_ROWS if any(r[1] == n for r in rows)]
+    else:
+        rows, ring = rows['rdkit'], rows['ring']
+    sch = lib.scheme
+    pats = {tuple(r): Chem.MolFromSmarts(r[2]) for r in rows}
+    s2 = M.GroupAdditivityScheme(patterns=list(sch.patterns), pretreatment_rules=[], remaps=dict(sch.remaps),
+                                 other_descriptors=list(sch.other_descriptors) + [{'name': n, 'connectivity': M.Read(t)} for n, t in ring],
+                                 smiles_based_descriptors=[{'name': r[1], 'smiles': pats[tuple(r)], 'useChirality': r[3]} for r in rows if r[0] == 'smiles'],
+                                 smarts_based_descriptors=[{'name': r[1], 'smarts': pats[tuple(r)], 'useChirality': r[3]} for r in rows if r[0] == 'smarts'],
+                                 include=[])
+    lib2 = GroupLibrary(s2, contents={}, uq_contents={})
+    before = len(ctx.violations)
+    for smi in sorted(mols, key=len):
+        if len(ctx.violations) > before:
+            break
+        mol = S.prepare(smi)
+        with S.rdkit_defaults():
+            clean = Chem.MolFromSmiles(smi)
+        if mol is None or clean is None:
+            continue
+        impl = S.impl_descriptors(lib2, smi)
+        inp = S.scheme_input(s2, mol)
+        for r in rows:
+            target = clean if r[0] == 'smiles' else mol
+            inp['descs'].append({'name': r[1], 'ms': [list(m) for m in target.GetSubstructMatches(pats[tuple(r)], useChirality=r[3])]})
+        spec = S.declared(inp)
+        ctx.count('rdkit_row_cases')
+        ctx.case(('%s~rdkit-rows' % name, smi, json.dumps(rows)), None)
+        where = {'scheme': '%s~rdkit-rows' % name, 'smiles': smi, 'rows': {'rdkit': rows, 'ring': ring}}
+        if impl.get('err', '').startswith('internal') or ('err' in impl) != ('err' in spec):
+            ctx.violation('a scheme with smiles/smarts-based correction rows: failure differs from the declared decomposition', where,
+                          spec if 'err' in spec else 'descriptors', impl if 'err' in impl else 'descriptors')
+        elif 'ok' in impl and not S.same_counts(impl['ok'], spec['ok']):
+            diff = {k: (impl['ok'].get(k), float(spec['ok'].get(k, 0))) for k in set(impl['ok']) | set(spec['ok'])
+                    if abs(float(impl['ok'].get(k, 0)) - float(spec['ok'].get(k, 0))) > 1e-9}
+            ctx.violation('descriptors differ from the scheme file\'s declared decomposition (one count per correction row, summed under its name; '
+                          'RING, smiles-based and smarts-based rows)', where, {k: v[1] for k, v in diff.items()}, {k: v[0] for k, v in diff.items()})
+
+
 def run(ctx):
     libs_ = S.load_schemes()
     batch = []
@@ -272,11 +418,26 @@ def run(ctx):
             if ctx.time_left() < 120:
                 break
         # synthetic schemes derived from this one
-        for forced in ['dup-last', 'dup-first'] + [None] * ctx.n(3, 30):
+        for forced in ['dup-last', 'dup-first'] + ['twin'] * ctx.n(2, 12) + [None] * ctx.n(3, 30):
             sample = ctx.rng.sample(mols, min(len(mols), ctx.n(8, 20)))
             lib2, mode = synthetic(ctx, lib, sample, forced)
+            extra = {'rows': synthetic.rows} if mode == 'twin' else None
+            if mode == 'twin':
+                sample = sorted(sample, key=len)
             for smi in sample:
-                check_one(ctx, '%s~%s' % (name, mode), lib2, smi, batch, full)
+                if mode == 'twin' and twin_fails(lib2, smi):
+                    # a failing input in its smallest form: drop the appended rows that are not needed for the difference
+                    rows = list(synthetic.rows)
+                    for r in list(rows):
+                        fewer = [x for x in rows if x is not r]
+                        if twin_fails(with_rows(lib, fewer), smi):
+                            rows = fewer
+                    check_one(ctx, '%s~twin' % name, with_rows(lib, rows), smi, batch, full, {'rows': rows})
+                    break
+                check_one(ctx, '%s~%s' % (name, mode), lib2, smi, batch, full, extra)
+            if mode == 'twin':
+                ctx.count('twin_schemes')
+                rdkit_rows(ctx, name, lib, sample)
         # the shipped scheme with probe descriptors, on the molecules that have rings or weak bonds
         libp = probe_scheme(lib)
         for smi in [m for m in mols if any(ch in m for ch in '12~')][:ctx.n(60, 400)]:
@@ -309,7 +470,14 @@ def replay(ctx, rec):
     lib = probe_scheme(libs_[name]) if inp['scheme'].endswith('~probe') else libs_[name]
     if inp['scheme'].endswith(('~dup-last', '~dup-first')):
         lib = synthetic(ctx, libs_[name], [inp['smiles']], inp['scheme'].split('~')[1])[0]
-    check_one(ctx, inp['scheme'], lib, inp['smiles'], batch)
+    if inp['scheme'].endswith('~rdkit-rows'):
+        rdkit_rows(ctx, name, libs_[name], [inp['smiles']], inp['rows'])
+        return len(ctx.violations) == before
+    extra = None
+    if inp['scheme'].endswith('~twin'):
+        lib = with_rows(libs_[name], inp['rows'])
+        extra = {'rows': inp['rows']}
+    check_one(ctx, inp['scheme'], lib, inp['smiles'], batch, None, extra)
     if 'other_smiles' in inp:
         a = S.impl_descriptors(libs_[name], inp['smiles'])
         b = S.impl_descriptors(libs_[name], inp['other_smiles'])
